@@ -51,6 +51,10 @@ for pf in "$VERIF"/mutants/"$PROP"/*.patch; do
     *) run_variant "$pf" mutant "$expect" ;;
   esac
 done
+# behaviour-preserving refactoring bundles: every property must stay silent on each
+for pf in "$VERIF"/benign_all/*.benign.patch; do
+  run_variant "$pf" benign ""
+done
 for meta in "$VERIF"/seeded/*/meta.json; do
   d="$(dirname "$meta")"
   if python3 - "$meta" "$PROP" <<'PY'
